@@ -12,6 +12,10 @@ Violation reasons are kept apart by their first word:
     columns:    a stored column differs
     attributes: an attribute key or value lost, invented or repeated
     relations:  level-1 rows differ from the Parent values of the stored features   (see DESIGN.md F-C05-1)
+    extra:      the fields after the attribute column are not those of the arrival the strategy keeps
+    handle:     db[key] (live FeatureDB handle) differs from the model
+    printed:    str(db[key]) is not the line the strategy keeps (dialect of the file)
+    lookup:     a stored feature is not found by region(..., completely_within=True) / all_features(limit=) at its position
 """
 import os
 
@@ -29,9 +33,14 @@ RULE = ("histories of 1-2 colliding keys with 2-6 arrivals each (plus unique fea
         "keys (on the stored feature / the newcomer / both / against the same key with values), start and/or end '.', "
         "force_merge_fields handed over in shuffled order, GTF importer under 6 non-default (transcript key, gene key) "
         "pairs (incl. swapped and decoy transcript_id/gene_id attributes) x all strategies, one key colliding in create_db "
-        "and again in 2-4 later update() calls (reopen never/always/mixed); non-trivial = >= 3 arrivals on one key; "
+        "and again in 2-4 later update() calls (reopen never/always/mixed), the documented verbose argument (not given / False "
+        "/ True / 'debug') handed to create_db and every update - drawn per history and, in a dedicated block, one "
+        "history run under all three values -, colliding lines with 0-2 extra (10th, 11th) columns that differ from "
+        "arrival to arrival (under merge: equal per key), column variants of one key placed in different genomic bins "
+        "(1-500, 40000001-40000500, 300000000-300000400, ...); every stored feature is also read through the live "
+        "handle (db[key], str(), region(completely_within=True) and all_features(limit=) at its position); non-trivial = >= 3 arrivals on one key; "
         "distinct = distinct (strategy, importer, force set/order, number of batches, per-key column-equality pattern, "
-        "input classes)")
+        "input classes, verbose)")
 REQUIRED = ["histories", "arrivals", "stored features compared", "attribute value sets compared", "forced columns compared",
             "level-1 relation rows compared", "update() calls", "aborts observed (error)", "start/end force rejected",
             "autoid contract evaluations",
@@ -56,14 +65,35 @@ REQUIRED = ["histories", "arrivals", "stored features compared", "attribute valu
             # order of force_merge_fields
             "forced columns compared (force_merge_fields in non-canonical order)",
             "histories with force_merge_fields in non-canonical order (gff3)",
-            "histories with force_merge_fields in non-canonical order (gtf)"]
+            "histories with force_merge_fields in non-canonical order (gtf)",
+            # verbose
+            "histories run with verbose=False", "histories run with verbose=True", "histories run with verbose='debug'",
+            "one history run under verbose False / True / 'debug' (each judged against the model)",
+            "update() calls with verbose='debug'",
+            # extra columns, genomic bins
+            "extra columns compared (stored row)", "extra columns compared (stored row, non-empty)",
+            "replace: colliding arrivals differ in their extra columns", "replace: colliding arrivals lie >= 1 Mb apart",
+            "warning: colliding arrivals differ in their extra columns", "warning: colliding arrivals lie >= 1 Mb apart",
+            "create_unique: colliding arrivals differ in their extra columns",
+            "create_unique: colliding arrivals lie >= 1 Mb apart", "merge: colliding arrivals lie >= 1 Mb apart",
+            "region(completely_within=True) look-ups at the stored position",
+            "all_features(limit=) look-ups at the stored position",
+            "look-ups at the position of a feature that replaced one >= 1 Mb away",
+            # live handle
+            "db[key] compared with the model (columns, attributes, extra)",
+            "printed lines compared with the kept arrival's line", "printed lines compared with the kept arrival's line (gtf)",
+            "printed lines with extra columns compared",
+            "printed lines of merged features compared (columns, attribute parts)"]
 REQUIRED_CLASSES = (["strategy=" + s for s in M.STRATEGIES] + ["fmt=gff3", "fmt=gtf", "path=create", "path=create+update"]
                     + ["non-default GTF keys: strategy=" + s for s in M.STRATEGIES]
                     + ["non-default GTF keys: path=create", "non-default GTF keys: path=create+update"]
                     + ["collisions in create_db and >= 2 update() runs: strategy=" + s for s in ("create_unique", "merge")]
                     + ["arrival: " + a for a in ("new", "ignored", "replaced", "unique", "merged into key", "merged into spawn",
                                                  "spawned", "natural key collides with '<key>_n' entry")]
-                    + ["force subset size=%d" % i for i in range(7)])
+                    + ["force subset size=%d" % i for i in range(7)]
+                    + ["verbose=%r: strategy=%s" % (v, s) for v in (False, True, "debug") for s in M.STRATEGIES]
+                    + ["input class: extra columns, strategy=" + s for s in M.STRATEGIES]
+                    + ["input class: variants in different genomic bins, strategy=" + s for s in M.STRATEGIES])
 ASSUMPTIONS = [
     "one strategy, one force_merge_fields set and one id_spec per history (create_db and every update alike)",
     "a history in which the fresh '<key>_n' is already the key of another feature, or in which two candidates agree with "
@@ -78,6 +108,16 @@ ASSUMPTIONS = [
     "union is empty; two '.' coordinates agree, '.' and a number differ",
     "the same transcript/gene keys are given to create_db (gtf_transcript_key / gtf_gene_key) and to every update "
     "(transcript_key / gene_key)",
+    "the same verbose value is given to create_db and to every update; verbose only changes what is logged",
+    "fields after the attribute column belong to the feature: 'replace' stores the last arrival's, 'warning' the first "
+    "arrival's, create_unique each arrival's own; whether they must agree for a merge is not said: arrivals of one key "
+    "carry the same extra fields under 'merge' (the model skips and counts anything else)",
+    "a feature that is one arrival (not merged) prints as that arrival's line, the files being written in the one dialect "
+    "the database detects; of a merged feature only the columns, the attribute parts (keys once, value sets) and the extra "
+    "fields of the printed line are judged (order of keys and values free)",
+    "a stored feature with defined coordinates is among region((seqid, start, end), completely_within=True) and "
+    "all_features(limit=(seqid, start, end)); what else these return is C06's subject (only ids that are not stored at all "
+    "are reported)",
 ]
 QUICK_SHARDS = 4
 THOROUGH_SHARDS = 16
@@ -153,6 +193,8 @@ def real_kwargs(case, bi=0):
         kw["id_spec"] = case["idkey"]
     elif case["spec_form"] == "list":
         kw["id_spec"] = [case["idkey"]]
+    if "verbose" in case:
+        kw["verbose"] = case["verbose"]
     if case["fmt"] == "gtf":
         kw.update(disable_infer_genes=True, disable_infer_transcripts=True)
         if case.get("gtfkeys"):
@@ -196,6 +238,8 @@ def execute(ctx, case):
                     ctx.mon("update() calls")
                     if "transcript_key" in kw:
                         ctx.mon("update() calls with transcript_key / gene_key")
+                    if "verbose" in kw:
+                        ctx.mon("update() calls with verbose=%r" % (kw["verbose"],))
             except Exception as ex:
                 if expect_abort:
                     ctx.mon("aborts observed (error)")
@@ -213,6 +257,8 @@ def execute(ctx, case):
                 return None
         ctx.mon("histories")
         ctx.mon("arrivals", store.count)
+        if "verbose" in case:
+            ctx.mon("histories run with verbose=%r" % (case["verbose"],))
         compare(ctx, case, db, store)
         observed(ctx, case, store)
     finally:
@@ -309,16 +355,16 @@ def compare(ctx, case, db, store):
                        merged=e["merged"], arrivals=store.log)
                 ok = False
                 break
-        # the same through the API
-        try:
-            f = db[key]
-            api = dict((k, sorted(f.attributes[k])) for k in f.attributes.keys())
-            ctx.mon("db[key] compared")
-            if api != dict((k, sorted(v)) for k, v in attrs.items()) or f.id != key:
-                report(ctx, case, "attributes", "db[%r] differs from the stored row" % key, got=api, expected=attrs)
-                ok = False
-        except Exception as ex:
-            report(ctx, case, "features", "db[%r] raised %r" % (key, ex))
+        # the fields after the attribute column
+        ctx.mon("extra columns compared (stored row)")
+        if e["extra"]:
+            ctx.mon("extra columns compared (stored row, non-empty)")
+        if (row["extra"] or []) != e["extra"]:
+            report(ctx, case, "extra", "fields after the attribute column of %r are not those of the arrival that %s keeps"
+                   % (key, case["strategy"]), got=row["extra"], expected=e["extra"], arrivals=store.log)
+            ok = False
+        # the same through the live handle
+        if not live(ctx, case, db, key, e, row, set(got), key in store.moved):
             ok = False
     # ---- relations: Parent values of the features as finally stored
     gtf = case["fmt"] == "gtf"
@@ -364,6 +410,129 @@ def compare(ctx, case, db, store):
                 ok = False
                 break
     return ok
+
+
+def printed_parts(col, fmt):
+    """Attribute column as printed in the file's dialect point -> [(key, [values])]  (values of the generators hold no
+    reserved characters)."""
+    if col == "":
+        return []
+    out = []
+    if fmt == "gtf":
+        col = col[:-1] if col.endswith(";") else col
+        for part in col.split("; "):
+            k, _, v = part.partition(" ")
+            v = v[1:-1] if len(v) >= 2 and v[0] == v[-1] == '"' else v
+            out.append((k, v.split(",") if v != "" else []))
+    else:
+        for part in col.split(";"):
+            k, eq, v = part.partition("=")
+            out.append((k, v.split(",") if eq and v != "" else []))
+    return out
+
+
+def live(ctx, case, db, key, e, row, stored, moved):
+    """db[key] through the live FeatureDB handle: columns, attributes, extra fields, printed line, and the feature is found
+    at its position."""
+    fmt = case["fmt"]
+    try:
+        f = db[key]
+        have = dict((c, getattr(f, c)) for c in M.COLS)
+        api = dict((k, list(f.attributes[k])) for k in f.attributes.keys())
+        extra = list(f.extra or [])
+        line = str(f)
+        fid = f.id
+    except Exception as ex:
+        report(ctx, case, "handle", "db[%r] / str(db[%r]) raised %r" % (key, key, ex))
+        return False
+    ok = True
+    ctx.mon("db[key] compared")
+    ctx.mon("db[key] compared with the model (columns, attributes, extra)")
+    bad = None
+    if fid != key:
+        bad = ("id", fid, key)
+    for c in M.COLS:
+        want = e["cols"][c]
+        v = "." if have[c] is None else str(have[c])
+        if isinstance(want, tuple):
+            if frozenset(v.split(",")) != want[1]:
+                bad = (c, v, sorted(want[1]))
+        elif v != want:
+            bad = (c, v, want)
+    if sorted(api) != sorted(e["attrs"]):
+        bad = ("attribute keys", sorted(api), sorted(e["attrs"]))
+    else:
+        for k, want in e["attrs"].items():
+            if sorted(api[k]) != want:
+                bad = ("attribute " + k, api[k], want)
+    if extra != e["extra"]:
+        bad = ("extra", extra, e["extra"])
+    if bad:
+        report(ctx, case, "handle", "db[%r] differs from the strategy's outcome in: %s" % (key, bad[0]), got=bad[1],
+               expected=bad[2], arrivals=store_log(case))
+        ok = False
+    # ---- printed line
+    if e["rec"] is not None:
+        want = MD.render_line(e["rec"], point(fmt))
+        ctx.mon("printed lines compared with the kept arrival's line")
+        if fmt == "gtf":
+            ctx.mon("printed lines compared with the kept arrival's line (gtf)")
+        if e["extra"]:
+            ctx.mon("printed lines with extra columns compared")
+        if line != want:
+            report(ctx, case, "printed", "str(db[%r]) is not the line of the arrival that %s keeps" % (key, case["strategy"]),
+                   got=line, expected=want)
+            ok = False
+    else:
+        ctx.mon("printed lines of merged features compared (columns, attribute parts)")
+        cols = line.split("\t")
+        bad = None
+        if len(cols) < 9:
+            bad = ("number of columns", len(cols), 9)
+        else:
+            for c, v in zip(M.COLS, cols):
+                want = e["cols"][c]
+                if (frozenset(v.split(",")) != want[1]) if isinstance(want, tuple) else (v != want):
+                    bad = ("column " + c, v, sorted(want[1]) if isinstance(want, tuple) else want)
+            parts = printed_parts(cols[8], fmt)
+            keys = [k for k, _ in parts]
+            if sorted(keys) != sorted(e["attrs"]):
+                bad = ("attribute keys (each once)", keys, sorted(e["attrs"]))
+            else:
+                for k, vals in parts:
+                    if sorted(vals) != e["attrs"][k]:
+                        bad = ("values of " + k, vals, e["attrs"][k])
+            if cols[9:] != e["extra"]:
+                bad = ("extra fields", cols[9:], e["extra"])
+        if bad:
+            report(ctx, case, "printed", "str(db[%r]) (merged feature) differs from the model in: %s" % (key, bad[0]),
+                   got=bad[1], expected=bad[2], line=line)
+            ok = False
+    # ---- found at its position
+    if row["start"] is not None and row["end"] is not None and ok:
+        where = (row["seqid"], row["start"], row["end"])
+        for name, fn in (("region(completely_within=True)", lambda: db.region(where, completely_within=True)),
+                         ("all_features(limit=)", lambda: db.all_features(limit=where))):
+            try:
+                ids = [x.id for x in fn()]
+            except Exception as ex:
+                report(ctx, case, "lookup", "%s at %r raised %r" % (name, where, ex))
+                ok = False
+                continue
+            ctx.mon("%s look-ups at the stored position" % name)
+            if moved:
+                ctx.mon("look-ups at the position of a feature that replaced one >= 1 Mb away")
+            if key not in ids or not set(ids) <= stored:
+                report(ctx, case, "lookup", "%s at the position %r of the stored feature %r %s" % (
+                    name, where, key, "does not find it" if key not in ids else "returns ids that are not stored"),
+                    got=ids, arrivals=store_log(case))
+                ok = False
+    return ok
+
+
+def store_log(case):
+    tk, gk = link_keys(case)
+    return M.run(case["strategy"], case["force"], case["batches"], case["idkey"])[0].log
 
 
 def execute_badforce(ctx, case):
@@ -425,8 +594,11 @@ def account(ctx, case, store):
         ctx.classes["non-default GTF keys: path=" + ("create" if nb == 1 else "create+update")] += 1
     for o in case.get("opts", []):
         if o != "gtfkeys":
-            ctx.classes["input class: " + {"flags": "valueless attribute keys", "dots": "'.' start/end"}[o]
+            ctx.classes["input class: " + {"flags": "valueless attribute keys", "dots": "'.' start/end",
+                                           "extras": "extra columns", "farbins": "variants in different genomic bins"}[o]
                         + ", strategy=" + case["strategy"]] += 1
+    if "verbose" in case:
+        ctx.classes["verbose=%r: strategy=%s" % (case["verbose"], case["strategy"])] += 1
     runs = store.collision_runs()
     if 0 in runs and len(runs) >= 3:
         ctx.classes["collisions in create_db and >= 2 update() runs: strategy=" + case["strategy"]] += 1
@@ -439,8 +611,9 @@ def account(ctx, case, store):
         ctx.classes["arrival: natural key collides with '<key>_n' entry"] += nat
     many = any(len(p) >= 3 for p in case.get("pattern", []))
     ctx.case((case["strategy"], case["fmt"], case["force"] if noncanonical(case) else sorted(case["force"]), nb,
-              case.get("pattern"), case.get("gtfkeys"), case.get("opts"), len(runs)), many,
+              case.get("pattern"), case.get("gtfkeys"), case.get("opts"), len(runs), repr(case.get("verbose"))), many,
              sample={"strategy": case["strategy"], "force": case["force"], "fmt": case["fmt"], "arrivals": store.log,
+                     "verbose": case.get("verbose", "not given"),
                      "input": [text_of(b, case["fmt"]) for b in case["batches"]][:2]})
 
 
@@ -453,6 +626,11 @@ def draw_opts(rng, fmt, shuffle=None):
         o["dots"] = rng.choice(["start", "end", "both"])
     if fmt == "gtf" and rng.random() < 0.35:
         o["gtfkeys"] = rng.choice(G.GTF_KEYS)
+    if rng.random() < 0.3:
+        o["extras"] = True
+    if rng.random() < 0.25:
+        o["farbins"] = True
+    o["verbose"] = rng.choice([None, False, True, "debug"])
     return o
 
 
@@ -500,6 +678,36 @@ def run(ctx):
         force = rng.choice(M.subsets()) if strategy == "merge" else []
         fmt = rng.choice(["gff3", "gtf"])
         case = G.gen_multirun(rng, fmt, strategy, force, opts=draw_opts(rng, fmt))
+        account(ctx, case, execute(ctx, case))
+    # 2d. one history under every value of the documented verbose argument
+    for _ in range(ctx.budget(160, 3000)):
+        strategy = rng.choice(list(M.STRATEGIES) + ["merge", "merge"])
+        force = rng.choice(M.subsets()) if strategy == "merge" else []
+        fmt = rng.choice(["gff3", "gtf"])
+        gen = G.gen_multirun if rng.random() < 0.3 and strategy != "error" else None
+        base = (gen(rng, fmt, strategy, force, opts=draw_opts(rng, fmt)) if gen else
+                G.gen_history(rng, fmt, strategy, force, rng.choice(["create", "update"]), opts=draw_opts(rng, fmt)))
+        done = 0
+        for v in (False, True, "debug"):
+            case = dict(base, verbose=v)
+            st = execute(ctx, case)
+            account(ctx, case, st)
+            done += st is not None
+        if done == 3:
+            ctx.mon("one history run under verbose False / True / 'debug' (each judged against the model)")
+    # 2e. extra columns that differ between the arrivals / arrivals in different genomic bins, every strategy
+    for _ in range(ctx.budget(600, 10000)):
+        strategy = rng.choice(["replace", "replace", "warning", "create_unique", "merge", "error"])
+        force = rng.choice(M.subsets()) if strategy == "merge" else []
+        fmt = rng.choice(["gff3", "gtf"])
+        o = draw_opts(rng, fmt)
+        r = rng.random()
+        o.update(extras=r < 0.75, farbins=r > 0.4)
+        o.pop("dots", None)
+        if rng.random() < 0.25 and strategy != "error":
+            case = G.gen_multirun(rng, fmt, strategy, force, opts=o)
+        else:
+            case = G.gen_history(rng, fmt, strategy, force, rng.choice(["create", "update"]), opts=o)
         account(ctx, case, execute(ctx, case))
     # 3. start/end cannot be forced
     for _ in range(ctx.budget(60, 1600)):
